@@ -404,6 +404,8 @@ def special_inputs(slow=False):
         pass
     out += hostile_name_inputs()
     out += regex_hostile_markup()
+    out += damaged_attachment_encodings()
+    out += nested_formula_documents(slow)
     out += guard_tripping_containers()
     out += encrypted_pdf_variants(slow)
     out += pdf_security_parameter_grid()
@@ -427,6 +429,72 @@ def regex_hostile_markup():
     out.append(("rtf", "special:rtf-backslash-run", b"{\\rtf1 " + b"\\" * 3000 + b"x}"))
     out.append(("eml", "special:eml-html-open-meta", b"From: a@x.org\nTo: b@x.org\nSubject: s\nMIME-Version: 1.0\nContent-Type: text/html\n\n"
                 b"<html><head><meta " + b"a=b " * 60))
+    return out
+
+
+def damaged_attachment_encodings():
+    """E-mails whose CONTAINER is damaged around an attachment: base64 that is not a multiple of four characters, with
+    illegal characters, truncated in the middle of a quantum; broken quoted-printable; unknown transfer encodings and
+    charsets - for attachments with supported names (so that they are routed and consumed)."""
+    out = []
+    bodies = {
+        "b64-odd-length": ("base64", b"SGVsbG8gd29ybGQ"),          # 15 chars
+        "b64-one-char": ("base64", b"S"),
+        "b64-illegal-chars": ("base64", b"SGV$$sbG8*gd29ybGQ=\x00\xff"),
+        "b64-padding-inside": ("base64", b"SGVs=bG8gd29y=bGQ="),
+        "b64-empty": ("base64", b""),
+        "qp-broken": ("quoted-printable", b"a=ZZb=\n=4"),
+        "unknown-encoding": ("x-rot47", b"abc"),
+        "7bit-with-8bit": ("7bit", b"caf\xe9 \xff\xfe"),
+        "uuencode": ("x-uuencode", b"begin 644 t.txt\n#86)C\n`\nend\n"),
+    }
+    for name, (cte, payload) in bodies.items():
+        for fn, ctype in (("t.txt", "text/plain; charset=utf-8"), ("d.docx", "application/octet-stream"), ("c.csv", "text/csv; charset=x-nope"),
+                          ("p.pdf", "application/pdf")):
+            raw = (b"From: a@x.org\nTo: b@x.org\nSubject: damaged " + name.encode() + b"\nDate: Mon, 01 Jan 2024 00:00:00 +0000\n"
+                   b"MIME-Version: 1.0\nContent-Type: multipart/mixed; boundary=B\n\n--B\nContent-Type: text/plain\n\nbody\n"
+                   b"--B\nContent-Type: " + ctype.encode() + b"\nContent-Transfer-Encoding: " + cte.encode() +
+                   b"\nContent-Disposition: attachment; filename=\"" + fn.encode() + b"\"\n\n" + payload + b"\n--B--\n")
+            out.append(("eml", f"special:eml-damaged-attachment:{name}:{fn}", raw))
+            if fn == "t.txt":
+                out.append(("mbox", f"special:mbox-damaged-attachment:{name}", b"From a@x.org Mon Jan  1 00:00:00 2024\n" + raw))
+    return out
+
+
+def nested_formula_documents(slow=False):
+    """DOCX files whose only special content is a formula in which elements with two or more operands are nested
+    deeply (work that doubles per level shows as a hang under the watchdog; pristine converts them in milliseconds)."""
+    out = []
+    try:
+        from props import c12_amp
+    except Exception:  # noqa
+        return out
+    M = 'xmlns:m="http://schemas.openxmlformats.org/officeDocument/2006/math"'
+    W = 'xmlns:w="http://schemas.openxmlformats.org/wordprocessingml/2006/main"'
+    t = lambda x: f"<m:r><m:t>{x}</m:t></m:r>"
+    shapes = {
+        "delimiter-2-args": lambda inner: f"<m:d><m:e>{t('a')}</m:e><m:e>{inner}</m:e></m:d>",
+        "delimiter-3-args": lambda inner: f"<m:d><m:e>{inner}</m:e><m:e>{t('b')}</m:e><m:e>{t('c')}</m:e></m:d>",
+        "fraction-num": lambda inner: f"<m:f><m:num>{inner}</m:num><m:den>{t('d')}</m:den></m:f>",
+        "fraction-den": lambda inner: f"<m:f><m:num>{t('n')}</m:num><m:den>{inner}</m:den></m:f>",
+        "nary-sub": lambda inner: f"<m:nary><m:sub>{inner}</m:sub><m:sup>{t('n')}</m:sup><m:e>{t('x')}</m:e></m:nary>",
+        "nary-e": lambda inner: f"<m:nary><m:sub>{t('i')}</m:sub><m:sup>{t('n')}</m:sup><m:e>{inner}</m:e></m:nary>",
+        "ssubsup": lambda inner: f"<m:sSubSup><m:e>{t('x')}</m:e><m:sub>{inner}</m:sub><m:sup>{t('2')}</m:sup></m:sSubSup>",
+        "rad-deg": lambda inner: f"<m:rad><m:deg>{inner}</m:deg><m:e>{t('x')}</m:e></m:rad>",
+        "func": lambda inner: f"<m:func><m:fName>{t('sin')}</m:fName><m:e>{inner}</m:e></m:func>",
+        "matrix": lambda inner: f"<m:m><m:mr><m:e>{inner}</m:e><m:e>{t('y')}</m:e></m:mr></m:m>",
+        "limlow": lambda inner: f"<m:limLow><m:e>{t('lim')}</m:e><m:lim>{inner}</m:lim></m:limLow>",
+    }
+    depth = 120 if slow else 48
+    for name, wrap in shapes.items():
+        inner = t("z")
+        for _ in range(depth):
+            inner = wrap(inner)
+        xml = (f'<?xml version="1.0"?><w:document {W} {M}><w:body><w:p><m:oMath>{inner}</m:oMath></w:p></w:body></w:document>').encode()
+        try:
+            out.append(("docx", f"special:docx-formula-nested-{name}-{depth}", c12_amp._docx_with_document(xml)))
+        except Exception:  # noqa
+            pass
     return out
 
 
